@@ -225,7 +225,42 @@ def gen_passes():
     return rows
 
 
+def gen_watch():
+    """T-table: the shape of dedupLoop in generatecommand.go: debounce via time.AfterFunc + timer.Reset on every event, panic
+    recovery around a regeneration, and whether regenerations are serialized by a mutex held for the whole regeneration."""
+    src = open(os.path.join(REPO, "tooling/internal/cmd/generatecommand.go")).read()
+    m = re.search(r"func dedupLoop\(.*?\n\}\n", src, re.S)
+    if not m:
+        raise RuntimeError("gentables: cannot find dedupLoop")
+    body = m.group(0)
+    rg = re.search(r"regenerate := func\(\) \{\n(.*?)\n\t\}\n", body, re.S)
+    if not rg:
+        raise RuntimeError("gentables: cannot find the regenerate closure of dedupLoop")
+    rb = rg.group(1)
+    lock = re.match(r"\s*(\w+)\.Lock\(\)\s*\n\s*defer \1\.Unlock\(\)", rb)
+    serialized = bool(lock) and re.search(r"var %s sync\.Mutex" % lock.group(1), body) is not None and "generateInWatchMode(" in rb
+    debounce = re.search(r"timer := time\.AfterFunc\(math\.MaxInt64, regenerate\)", body) is not None and "timer.Reset(waitFor)" in body
+    initial = re.search(r"\n\tregenerate\(\)\n", body) is not None
+    gw = re.search(r"func generateInWatchMode\(.*?\n\}\n", src, re.S)
+    recovers = bool(gw) and re.search(r"defer func\(\) \{\s*if err := recover\(\); err != nil", gw.group(0)) is not None
+    wait = re.search(r"const waitFor = (\d+) \* time\.Millisecond", body)
+    L = ["(* GENERATED on every run from tooling/internal/cmd/generatecommand.go by harness/lib/gentables.py. Do not edit. *)", "",
+         "(* regenerations hold one mutex from start to end *)", "Definition watch_serialized : bool := %s." % ("true" if serialized else "false"),
+         "(* every event re-arms one timer whose expiry starts a regeneration *)", "Definition watch_debounced : bool := %s." % ("true" if debounce else "false"),
+         "(* one regeneration runs before the event loop starts *)", "Definition watch_initial_run : bool := %s." % ("true" if initial else "false"),
+         "(* a panic inside a regeneration is recovered *)", "Definition watch_recovers_panics : bool := %s." % ("true" if recovers else "false"),
+         "Definition watch_debounce_ms : nat := %s." % (wait.group(1) if wait else "0"), ""]
+    text = "\n".join(L)
+    path = os.path.join(COQ, "Gen", "Watch.v")
+    old = open(path).read() if os.path.exists(path) else None
+    if old != text:
+        with open(path, "w") as f:
+            f.write(text)
+    return {"serialized": serialized, "debounce": debounce, "initial": initial, "recovers": recovers}
+
+
 def regenerate(ctx):
+    gen_watch()
     gen_phases()
     gen_map_sites(ctx)
     gen_naming()
